@@ -28,6 +28,7 @@ struct Arg {
    std::vector<Check> checks;
    int card = 0, cardA = 0, cardB = 0;   // 0 library default, 1 exact(A), 2 max(A), 3 range(A,B), 4 none
    std::vector<int> excl, req;           // indices of partner arguments
+   int cspell = 0;                       // how THIS argument writes its partners in the constraint text: 0 complete key spec, 1 short key only, 2 long key only (where the partner has it)
    char sep = ',';
    bool positional() const { return sk == 0 && lk.empty(); }
    std::string spec() const { if (positional()) return "-"; if (sk && !lk.empty()) return std::string(1, sk) + "," + lk; return sk ? std::string(1, sk) : lk; }
@@ -43,6 +44,7 @@ struct Cfg {
          for (auto& c : a.checks) { static const char* cn[] = {"", "lower", "upper", "range", "values", "minLength", "maxLength", "pattern"}; s += std::string(" ") + cn[c.type] + "("; if (c.type <= 3) { s += std::to_string(int(c.a)); if (c.type == 3) s += "," + std::to_string(int(c.b)); } else if (c.type == 4 || c.type == 7) s += c.s; else s += std::to_string(int(c.a)); s += ")"; }
          if (a.card) { static const char* kn[] = {"", "exact", "max", "range", "none"}; s += std::string(" card_") + kn[a.card] + "(" + std::to_string(a.cardA) + (a.card == 3 ? "," + std::to_string(a.cardB) : "") + ")"; }
          for (int e : a.excl) s += " excludes(" + args[e].spec() + ")"; for (int e : a.req) s += " requires(" + args[e].spec() + ")";
+         if (a.cspell) s += a.cspell == 1 ? " [partner written by short key]" : " [partner written by long key]";
          if (a.sep != ',') s += std::string(" sep'") + a.sep + "'";
          s += "} ";
       }
@@ -118,8 +120,9 @@ inline void add_arguments(const Cfg& cfg, celma::prog_args::Handler& h, std::vec
    // argument constraints refer to other arguments of the same handler: added when all are defined
    for (int i : which) {
       const Arg& a = cfg.args[i];
-      for (int e : a.excl) targs[i]->addConstraint(excludes(cfg.args[e].spec()));
-      for (int e : a.req) targs[i]->addConstraint(requiresArg(cfg.args[e].spec()));
+      auto pname = [&](int e) { const Arg& p = cfg.args[e]; if (a.cspell == 1 && p.sk) return std::string(1, p.sk); if (a.cspell == 2 && !p.lk.empty()) return p.lk; return p.spec(); };
+      for (int e : a.excl) targs[i]->addConstraint(excludes(pname(e)));
+      for (int e : a.req) targs[i]->addConstraint(requiresArg(pname(e)));
    }
 }
 inline void add_hconstraints(const Cfg& cfg, celma::prog_args::Handler& h, const std::vector<HConstraint>& hcs) {
